@@ -3,10 +3,17 @@
    during the call (as uid lists), the uids selNSGA2 returned (in order) and every individual's
    fitness.crowding_dist after the call.  `check` recomputes selection and crowding distances
    with the model (for nd='standard' also the fronts themselves, with Model/C05_SortStd.v) and also decides, for the very fronts the implementation used, the hypothesis
-   `fronts_correct` under which the theorems are stated. *)
+   `fronts_correct` under which the theorems of the first half are stated.
+   End-to-end tie (Model/C05_Full.v): `full_ok` evaluates sel_nsga2_full -- the model sorts by itself
+   with property C04's models of sortNondominated / sortLogNondominated, nothing is taken from the
+   implementation's sorter -- and requires (a) the preconditions pop_ok / nd_ok of the C05_full_ theorems,
+   (b) that the model's fronts are exactly the fronts the implementation's sorter returned during the call
+   (members and order inside each front, for BOTH back-ends), (c) that the model's selection is the list
+   selNSGA2 returned, in order.  CFullQ: calls outside the preconditions (another `nd`, empty population):
+   the model raises (None) exactly when the implementation raised. *)
 From Coq Require Import List ZArith QArith Qabs Bool Uint63.
 From Coq Require Export PrimFloat.
-From DV Require Export Base.Corr Base.PyList Model.C05_Nsga2 Model.C05_Spec Model.C05_SortStd.
+From DV Require Export Base.Corr Base.PyList Model.C05_Nsga2 Model.C05_Spec Model.C05_SortStd Model.C05_Full.
 Import ListNotations.
 
 Definition mkpop {A} (l : list (list Z * list A)) : list (ind A) :=
@@ -53,17 +60,38 @@ Definition std_ok {A} (std : bool) (p : list (ind A)) (k : nat) (fu : list (list
   | None => false
   end.
 
+Definition nd_of (std : bool) : nd_choice := if std then NdStandard else NdLog.
+Definition nd_of_nat (n : nat) : nd_choice := match n with O => NdStandard | S O => NdLog | _ => NdOther end.
+
 Section Runner.
   Variable o : numops.
   Variable deq : D o -> D o -> bool.
   (* side condition of the float crowding-cut theorem, decided on every case: no distance is NaN *)
   Variable dok : D o -> bool.
 
+  (* selNSGA2 end to end: the model sorts by itself (C04's models), then selects *)
+  Definition full_ok (std : bool) (p : list (ind (V o))) (k : nat) (fu : list (list nat))
+             (obs_sel : list nat) (cmp_sel : bool) : bool :=
+    let nd := nd_of std in
+    pop_ok_b p && nd_ok_b nd p &&
+    match nd_fronts nd p k with
+    | Some fr => list_eqb (list_eqb Nat.eqb) (map uids fr) fu
+    | None => false
+    end &&
+    (* (rational instance on inputs where the float arithmetic is not exact: the selection may
+       legitimately differ in ties, only the fronts are compared; `if` keeps vm_compute from evaluating it) *)
+    if cmp_sel then
+      match sel_nsga2_full o nd p k with
+      | Some r => list_eqb Nat.eqb (map uid r) obs_sel
+      | None => false
+      end
+    else true.
+
   Definition run_sel (k : nat) (pop : list (list Z * list (V o))) (fu : list (list nat))
              (obs_sel : list nat) (init_cd obs_cd : list (option (D o))) (cmp_sel std : bool) : bool :=
     let p := mkpop pop in
     let fronts := map (select p) fu in
-    wf_pop_b p && fronts_correct_b p k fu && std_ok std p k fu &&
+    wf_pop_b p && fronts_correct_b p k fu && std_ok std p k fu && full_ok std p k fu obs_sel cmp_sel &&
     match sel_nsga2 o fronts k with
     | None => false
     | Some r => negb cmp_sel || list_eqb Nat.eqb (map uid r) obs_sel
@@ -78,16 +106,19 @@ End Runner.
 Inductive case :=
 | CSelF (std : bool) (k : nat) (pop : list (list Z * list float)) (fu : list (list nat))
         (obs_sel : list nat) (init_cd obs_cd : list (option float))
-| CSelQ (exact : bool) (k : nat) (pop : list (list Z * list Q)) (fu : list (list nat))
+| CSelQ (exact std : bool) (k : nat) (pop : list (list Z * list Q)) (fu : list (list nat))
         (obs_sel : list nat) (init_cd obs_cd : list (option qinf))
 | CCrowdF (vals : list (list float)) (obs : list float)
-| CCrowdQ (exact : bool) (vals : list (list Q)) (obs : list qinf).
+| CCrowdQ (exact : bool) (vals : list (list Q)) (obs : list qinf)
+| CFullQ (nd : nat) (k : nat) (pop : list (list Z * list Q)) (obs : option (list nat)).
 
 Definition check (c : case) : bool :=
   match c with
   | CSelF std k pop fu s ic cd => run_sel f_ops feqb (fun d => negb (PrimFloat.is_nan d)) k pop fu s ic cd true std
-  | CSelQ exact k pop fu s ic cd =>
-      run_sel q_ops (if exact then qinf_eqb else qinf_close) (fun _ => true) k pop fu s ic cd exact false
+  | CSelQ exact std k pop fu s ic cd =>
+      run_sel q_ops (if exact then qinf_eqb else qinf_close) (fun _ => true) k pop fu s ic cd exact std
   | CCrowdF vals obs => run_crowd f_ops feqb vals obs
   | CCrowdQ exact vals obs => run_crowd q_ops (if exact then qinf_eqb else qinf_close) vals obs
+  | CFullQ nd k pop obs =>
+      option_eqb (list_eqb Nat.eqb) (option_map (map uid) (sel_nsga2_full q_ops (nd_of_nat nd) (mkpop pop) k)) obs
   end.
